@@ -119,8 +119,13 @@ def rule_partition_check(ctx: Ctx):
     ctx.check(okr, "R-C17-1", f, rnode or (cnt[0] if cnt else None),
               "a unit occurring more than once (multiplicity > 1 over all unitary alignments) raises SetPartitionError",
               bad_detail="a repeated unit is not reported: every pair with Counter multiplicity > 1 must raise SetPartitionError", key="repeated")
-    # success path exists: EXIT reachable when both tests are false
+    # success path exists: EXIT reachable when both tests are false, and only through both tests
     ctx.check(EXIT in cfg.reachable(0), "R-C17-1", f, None, "a valid partition passes (normal exit reachable)", construct="normal exit", key="accepts")
+    if mnode is not None and rnode is not None:
+        both = cfg.must_pass(EXIT, {cfg.node_of(mnode)}) and cfg.must_pass(EXIT, {cfg.node_of(rnode)})
+        ctx.check(both, "R-C17-1", f, mnode, "every normal exit of check() has evaluated the missing-unit test and the repeated-unit test",
+                  bad_detail="check() can return normally without evaluating the missing-unit or the repeated-unit test (early return / skipped branch)",
+                  key="both-tests-on-every-exit")
     # order-insensitive consumers of the collected pairs
     uses = [n for n in walk_no_nested(f.node) if isinstance(n, ast.Name) and n.id == lst and isinstance(n.ctx, ast.Load)]
     bad_uses = []
@@ -186,6 +191,11 @@ def rule_cover_check(ctx: Ctx):
     ctx.check(okz, "R-C17-3", f, znode, "SetPartitionError iff some unit of the continuum has count 0 (occurs in no unitary alignment)",
               bad_detail="the cover test is not `count == 0 -> SetPartitionError` over every unit", key="zero-test")
     ctx.check(EXIT in cfg.reachable(0), "R-C17-3", f, None, "a valid cover passes (normal exit reachable)", construct="normal exit", key="accepts")
+    if znode is not None:
+        zl = enclosing(f.node, znode, (ast.For,))
+        ctx.check(bool(zl) and cfg.must_pass(EXIT, {cfg.node_of(zl[0])}) and (not got or cfg.must_pass(cfg.node_of(zl[0]), {cfg.node_of(got[0])})), "R-C17-3", f, znode,
+                  "every normal exit of the soft check() has counted the occurrences and scanned every counter",
+                  bad_detail="the soft check() can return normally without counting / scanning the counters", key="scan-on-every-exit")
 
 
 def rule_constructors(ctx: Ctx):
